@@ -170,7 +170,15 @@ package lfs
 //@   ensures result1 == nil && len(fdata(file)) > 0 ==> decodes_ok(str_trim(fdata(file))) && result0.Oid == ptr_oid(str_trim(fdata(file)))
 //@   ensures err_notexist(result1) ==> !fexists(file)
 
-// C04 / C01 (smudge side, partial): a local object is only streamed into the
+// C04: the working-tree file is created empty (or emptied) before the object
+// is streamed into it, so nothing of a previous, longer content can survive
+// behind the object's bytes; what is smudged is the caller's pointer.
+//@ func (*GitFilter).SmudgeToFile
+//@   props C04
+//@   requires @inv f != nil && ptr != nil
+//@   at call (*lfs.GitFilter).Smudge:1 assert dyntype(arg1__, "*os.File") && ptr_as(arg1__, "os.File") == file && arg2__ == ptr && arg4__ == download
+//@   at call (*lfs.GitFilter).Smudge:1 assert fpath(file) == abs && fdata(abs) == "" && rrest(iface(file)) == ""
+
 // working tree when it exists and has exactly the size the pointer records.
 //@ func (*GitFilter).Smudge
 //@   props C04 C01
